@@ -79,6 +79,9 @@ func PkgPath(mod string, id int, pkg string) string {
 	if pkg == "twin" { // a second package that is also called `sub`
 		p += "/twin/sub"
 	}
+	if pkg == "deep" { // a third package, imported by the root AND by sub (diamond)
+		p += "/deep"
+	}
 	return p
 }
 
@@ -105,6 +108,9 @@ func (r *renderer) te(t TE) string {
 		case t.Pkg == "twin":
 			r.imports["twinsub "+PkgPath(r.mod, r.prog.ID, "twin")] = true
 			name = "twinsub." + name
+		case t.Pkg == "deep":
+			r.imports[PkgPath(r.mod, r.prog.ID, "deep")] = true
+			name = "deep." + name
 		case t.Pkg == "":
 			// root type seen from sub: not renderable (import cycle); generator never does this
 			name = "INVALID_ROOT_REF_" + name
@@ -226,6 +232,7 @@ func Render(p *Prog, mod string) map[string]string {
 		{"", "other", fmt.Sprintf("p%d/other.go", p.ID), PkgName(p.ID)},
 		{"sub", "", fmt.Sprintf("p%d/sub/sub.go", p.ID), "sub"},
 		{"twin", "", fmt.Sprintf("p%d/twin/sub/sub.go", p.ID), "sub"},
+		{"deep", "", fmt.Sprintf("p%d/deep/deep.go", p.ID), "deep"},
 	}
 	for _, u := range units {
 		r := &renderer{prog: p, mod: mod, pkg: u.pkg, imports: map[string]bool{}}
@@ -291,6 +298,7 @@ type Opts struct {
 	EnumUnexported bool // enums with unexported members
 	UnexportedMembers bool // union members whose Go name is unexported
 	NoMemberFirst     bool // no struct using union members before their unions
+	Deep              bool // a third package used by the root and by sub (a diamond of imports)
 	DashTags bool // some fields tagged json:"-"
 	NoTwinPkg bool // no second imported package named like the first
 	TagOptions bool // json tag options omitempty / string (C02 only: the generated types cannot express them)
@@ -300,7 +308,7 @@ type Opts struct {
 
 func Full() Opts {
 	return Opts{Pointers: false, Unions: true, Generics: true, StdLib: true, SubPkg: true, Embedded: true, Recursive: true,
-		Aliases: true, FixedArrays: true, MapKeys: true, Tags: true, NStructs: 4, MaxFields: 5, EnumUnexported: true, UnexportedMembers: true}
+		Aliases: true, FixedArrays: true, MapKeys: true, Tags: true, NStructs: 4, MaxFields: 5, EnumUnexported: true, UnexportedMembers: true, Deep: true}
 }
 
 type gen struct {
@@ -331,6 +339,14 @@ func Random(id int, rng *rand.Rand, o Opts) *Prog {
 		sl := Slice(Basic("string"))
 		add(Decl{K: "named", Name: "Names", Pkg: "sub", Under: &sl})
 		g.leafs = append(g.leafs, Ref("sub", "Level"), Ref("sub", "Code"), Ref("sub", "Point"), Ref("sub", "Names"))
+	}
+	if o.SubPkg && o.Deep {
+		// sub.Customer holds a deep.Addr, and the root struct Order uses sub.Customer BEFORE deep.Addr:
+		// deep.Addr is first met while generating for sub, then referenced from the root
+		add(Decl{K: "struct", Name: "Addr", Pkg: "deep", Fields: []Field{{Name: "City", Type: Basic("string")}, {Name: "Zip", Type: Basic("int")}}})
+		add(Decl{K: "struct", Name: "Customer", Pkg: "sub", Fields: []Field{{Name: "Name", Type: Basic("string")}, {Name: "Home", Type: Ref("deep", "Addr")}}})
+		add(Decl{K: "struct", Name: "Order", Fields: []Field{{Name: "Buyer", Type: Ref("sub", "Customer")}, {Name: "Delivery", Type: Ref("deep", "Addr")}, {Name: "N", Type: Basic("int")}}})
+		g.leafs = append(g.leafs, Ref("deep", "Addr"))
 	}
 	if o.SubPkg && !o.NoTwinPkg {
 		// a second imported package with the same package *name* (enums must be collected from both)
@@ -518,7 +534,8 @@ func Random(id int, rng *rand.Rand, o Opts) *Prog {
 				case 3:
 					// (not on a union-typed field: its zero value is the nil interface, which gounions cannot
 					// marshal, so "keeps its zero value" and "survives the round trip" cannot both be asked)
-					if o.DataIgnore && !(t.K == "ref" && t.Pkg == "" && (t.Name == "Shape" || t.Name == "Thing")) {
+					// nor on a struct-typed field, whose zero value may hold such a nil interface by value
+					if o.DataIgnore && (t.K == "basic" || t.K == "slice" || t.K == "map") {
 						fld.Tag = `gomacro-data:"ignore"`
 					}
 				}
